@@ -5,6 +5,7 @@
     Times are exact integer ticks, chord figures / keys are integer ids
     (index into chord_inference._CHORDS / pitch class). *)
 From Coq Require Import ZArith List Bool.
+From NS Require Import Gen.G19.
 Import ListNotations.
 Local Open Scope Z_scope.
 
@@ -59,6 +60,30 @@ Definition chords_written (times : list Z) (figs : list Z) : list (Z * Z) :=
 (* sorted(set(onsets + offsets) - {0.0, total_time}) *)
 Definition event_times (starts ends : list Z) (total : Z) : list Z :=
   uniq (isort (filter (fun t => negb (t =? 0) && negb (t =? total)) (starts ++ ends))).
+
+(** * Melody frames: melody_inference.sequence_note_frames *)
+Record fnote := mkF { f_pitch : Z; f_start : Z; f_end : Z; f_drum : bool; f_program : Z }.
+
+(* the notes the frame summaries are built from: pitched, non-drum, and (since
+   notes/C19-fix-1) starting before the end of the sequence *)
+Definition melodic (total : Z) (n : fnote) : bool :=
+  negb (f_drum n) && negb (existsb (Z.eqb (f_program n)) UNPITCHED_PROGRAMS) && (f_start n <? total).
+Definition frame_notes (notes : list fnote) (total : Z) : list fnote := filter (melodic total) notes.
+
+(* bisect on a sorted list = number of elements <= x (right) / < x (left) *)
+Definition bisect_right (l : list Z) (x : Z) : nat := length (filter (fun t => t <=? x) l).
+Definition bisect_left (l : list Z) (x : Z) : nat := length (filter (fun t => t <? x) l).
+
+Definition note_event_times (ns : list fnote) (total : Z) : list Z :=
+  event_times (map f_start ns) (map f_end ns) total.
+Definition note_pitches (ns : list fnote) : list Z := uniq (isort (map f_pitch ns)).  (* sorted(set(...)) *)
+
+(* has_onsets[f, pitch_map[p]] / has_notes[f, pitch_map[p]] *)
+Definition has_onset (ns : list fnote) (et : list Z) (f : nat) (p : Z) : bool :=
+  existsb (fun n => (f_pitch n =? p) && Nat.eqb (bisect_right et (f_start n)) f) ns.
+Definition has_note (ns : list fnote) (et : list Z) (f : nat) (p : Z) : bool :=
+  existsb (fun n => (f_pitch n =? p) && Nat.leb (bisect_right et (f_start n)) f
+                    && Nat.leb f (bisect_left et (f_end n))) ns.
 
 (** * Melody notes *)
 Inductive mev := Rest | Onset (p : Z) | Sustain (p : Z).
